@@ -22,7 +22,7 @@ NA = {
 CHECKS = {
  "C10": dict(
    level="exploration",
-   text="Definition-level fault injection against a fault-free reference run: 1..3 faults per run from cooperative fault points in the compiler (verif::buggify at the per-definition generator fold of both backends and at the validator fold), replacement of type assignments by parseable but unsupported definitions (REAL, VideotexString, inverted range, MACRO), and one module of several that does not lex. Oracles: accounting (every assignment is represented by the items attributed to it in the fault-free run, or matched to a new warning - named, or unnamed via bipartite matching); locality (every item of a definition that does not depend on a faulted one is token-identical to the fault-free run; for buggify faults nothing but the faulted definition is exempt); Err when any source fails to lex; normal return and renderable warnings. Both backends, random RasnConfig. The fault-free run itself is checked for completeness (leaving a definition out must remove an item, unless a warning of that run names the definition); the generator also emits values governed by a class field or a selection type. Workloads include classes, objects, parameterized templates (tagged or not, with type and value parameters) with instances, and members inherited with COMPONENTS OF. Scenario formatter-faults: the rustfmt stand-in fails VISIBLY (killed by a signal in the middle of its output, exit status 1/2/3, output that is not UTF-8) - compile_to_string() and compile() must return the unformatted or the completely formatted bindings, never a part of them, unless a new warning says so. Scenario xmod-name re-observes known finding F1 with rename-apart classification.",
+   text="Definition-level fault injection against a fault-free reference run: 1..3 faults per run from cooperative fault points in the compiler (verif::buggify at the per-definition generator fold of both backends, at the validator fold and in the linker loop), replacement of type assignments by parseable but unsupported definitions (REAL, VideotexString, inverted range, MACRO), and one module of several that does not lex. Oracles: accounting (every assignment is represented by the items attributed to it in the fault-free run, or matched to a new warning - named, or unnamed via bipartite matching); locality (every item of a definition that does not depend on a faulted one is token-identical to the fault-free run; for buggify faults nothing but the faulted definition is exempt); Err when any source fails to lex; normal return and renderable warnings. Both backends, random RasnConfig. The fault-free run itself is checked for completeness (leaving a definition out must remove an item, unless a warning of that run names the definition); the generator also emits values governed by a class field or a selection type. Workloads include classes, objects, parameterized templates (tagged or not, with type and value parameters) with instances, and members inherited with COMPONENTS OF. Scenario formatter-faults: the rustfmt stand-in fails VISIBLY (killed by a signal in the middle of its output, exit status 1/2/3, output that is not UTF-8) - compile_to_string() and compile() must return the unformatted or the completely formatted bindings, never a part of them, unless a new warning says so. Scenario xmod-name re-observes known finding F1 with rename-apart classification.",
    note="Attribution of items to definitions is learned by leave-one-out compilation in the reference child; definitions with empty attribution are not judged; a dependent of a REPLACED definition counts as represented when any of its items is still there (it legitimately changes shape). A formatter that exits 0 without output lies about its success and is not a fault this property is judged under. Sampling, not proof.",
    technique="deterministic simulation with fault injection: buggify-style cooperative fault points at definition granularity plus input-level definition faults; accounting/locality oracles against a fault-free reference",
    design="§4 C10"),
